@@ -57,6 +57,11 @@ def run(repo, rep):
         whos = {who}
         if s.fn and s.fn.module is m:
             whos = SS.owners_of(repo, s.fn, WRITERS[cname])
+            # a registration helper shared by the decorator and the promoting lookup acts for both; the lookup promotes through
+            # it (what a promotion may change is decided on the interpreted histories, C15.b / C15.d / C15.i)
+            if s.fn.qualname not in ('is_registered',) and 'register_pretty.<locals>.decorator' in whos and 'is_registered' in whos \
+                    and s.fn.name.startswith('_'):
+                whos = whos - {'is_registered'}
             who = '/'.join(sorted(whos)) if whos <= set(WRITERS[cname]) else sorted(whos - set(WRITERS[cname]))[0]
         rep.check(whos <= set(WRITERS[cname]), 'C15.a', '%s:writes:%s:%s' % (who, s.obj.name, s.detail), s.where,
                   'store written only by its registered writers',
